@@ -17,9 +17,12 @@
     * FLOAT, BINARY, URI, CAL-ADDRESS wrap `float()`/`float.__repr__`, `base64`/`binascii` and
       `str`; they are NOT modelled (assumed library laws, DESIGN section 4) and are covered by the
       oracle of harness/props/C03.py only.
-  Import-free apart from ICal.Model.PyStr: this file is linked into the native driver.
+  The weekday and frequency tables are the *generated* ones (ICal.Gen.Prop, regenerated from
+  prop.py on every run).  Import-free apart from ICal.Model.PyStr / ICal.Gen: this file is linked
+  into the native driver.
 -/
 import ICal.Model.PyStr
+import ICal.Gen.Prop
 namespace ICal
 
 /-! ## Python primitives used by the codecs -/
@@ -302,14 +305,11 @@ def boolFrom (t : Str) : CRes Bool :=
 
 /-! ## weekday, frequency, month -/
 
-/-- `vWeekday.week_days` keys, in table order (value = index) -/
-def weekDays : List Str :=
-  [['S', 'U'], ['M', 'O'], ['T', 'U'], ['W', 'E'], ['T', 'H'], ['F', 'R'], ['S', 'A']]
+/-- `vWeekday.week_days` keys, in table order (generated from the source) -/
+def weekDays : List Str := Gen.weekDays.map (fun p => p.1)
 
-/-- `vFrequency.frequencies` keys -/
-def frequencies : List Str :=
-  ["SECONDLY".toList, "MINUTELY".toList, "HOURLY".toList, "DAILY".toList, "WEEKLY".toList,
-   "MONTHLY".toList, "YEARLY".toList]
+/-- `vFrequency.frequencies` keys (generated from the source) -/
+def frequencies : List Str := Gen.frequencies
 
 /-- ASCII `\w` -/
 def isWordC (c : Char) : Bool :=
@@ -579,13 +579,16 @@ def rfcPeriod (t : Str) : Option DDD :=
       | none => (rfcDuration b).map (fun d => .period (.dt s) (.dur d))
   | _ => none
 
+/-- `[plus / minus]` : (some true = minus, some false = plus, none) and the rest -/
+def rfcSignSplit : Str → Option Bool × Str
+  | '+' :: r => (some false, r)
+  | '-' :: r => (some true, r)
+  | r => (none, r)
+
 /-- 3.3.10 `weekdaynum = [[plus / minus] ordwk] weekday`, `ordwk = 1*2DIGIT ;1 to 53`:
     (day index in `weekDays`, signed ordinal or none) -/
 def rfcWeekdayNum (t : Str) : Option (Nat × Option Int) :=
-  let sr : Option Bool × Str := match t with
-    | '+' :: r => (some false, r)
-    | '-' :: r => (some true, r)
-    | r => (none, r)
+  let sr := rfcSignSplit t
   let day (w : Str) : Option Nat :=
     let i := weekDays.idxOf w
     if i < 7 then some i else none
